@@ -8,7 +8,7 @@ code -> spec : the driver records, per connection, the script as performed and w
 import json, os, re, collections
 import vlib
 
-ENV = {"Connect", "CSend", "CFin", "TSend", "TFin", "TRst", "Tick", "CloseListener"}
+ENV = {"Connect", "CSend", "CFin", "CRst", "TSend", "TFin", "TRst", "TClose", "Tick", "CloseListener"}
 OBS = {"Open", "MAuth", "MProbe", "MClosed", "Dial", "TRecv", "TSawFin", "CRecv", "CSawFin", "CClose", "ServeReturn"}
 KIND = {1: "pre", 2: "addr", 3: "addrplus", 4: "addrpart", 5: "addrrest", 6: "badaddr", 7: "data", 8: "bad", 9: "junk"}
 
@@ -41,7 +41,9 @@ def features(beh):
     return dict(dial=names["Dial"] > 0, trecv=names["TRecv"], crecv=names["CRecv"], tfin=names["TSawFin"], cfin=names["CSawFin"],
                 probe=names["MProbe"] > 0, bad="bad" in toks or "badaddr" in toks, junk="junk" in toks, ticks=names["Tick"],
                 hs=tuple(s["hs"] for s in beh["sc"]), tk=tuple(s["tk"] for s in beh["sc"]), ntok=len(toks),
-                rst=names["TRst"] > 0, lclose=names["CloseListener"] > 0)
+                rst=names["TRst"] > 0, lclose=names["CloseListener"] > 0, tclose=names["TClose"] > 0, crst=names["CRst"] > 0,
+                after_close=sum(1 for i, e in enumerate(beh["tr"]) if e["a"] == "CSend" and e["v"] // 10 == 7 and
+                                any(x["a"] == "TClose" for x in beh["tr"][:i])))
 
 
 def gen(ctx, cfg, num, *, seed=None, depth=160, timeout=600):
@@ -195,6 +197,7 @@ DESCR = {
     "C15_ProbeBytes": "AddProbe does not carry the number of bytes received",
     "C15_Status": "AddClosed status does not name the real outcome class",
     "C15_OkIffComplete": "a completely successful connection was not reported OK",
+    "C15_OkMeansComplete": "a connection was reported OK although it did not end in complete success (a peer did not end its stream in an orderly way, or not everything that was sent was relayed)",
     "C15_Counters": "AddClosed byte counters differ from the bytes counted on the wire",
 }
 
@@ -202,9 +205,9 @@ DESCR = {
 def brief(case):
     return {"hs": case["hs"], "tk": case["tk"], "cipher": case["cipher"], "nkeys": case["nkeys"], "keypos": case["keypos"],
             "csent": ["%s%s:%d%s" % (t["k"], t["v"] or "", t["n"], ("/" + t["note"]) if t.get("note") else "") for t in case["csent"]],
-            "tsent": case["tsent"], "cfin": case["cfin"], "tfin": case["tfin"], "trst": case["trst"],
+            "tsent": case["tsent"], "cfin": case["cfin"], "tfin": case["tfin"], "trst": case["trst"], "tclosed": case.get("tcl"), "crst": case.get("crst"),
             "tlog": case["tlog"], "clog": case["clog"], "mlog": [[m["m"], m["s"], m["n"]] for m in case["mlog"]], "dials": case["dials"],
-            "wire": [case["wcs"], case["wtr"], case["wts"], case["wcr"]],
+            "wire": [case["wcs"], case["wtr"], case["wts"], case["wcr"]], "client_payload": case.get("wcpl"),
             "t": {"accept": case["acceptAt"], "preDone": case["preDoneAt"], "lastSend": case["lastSendAt"], "cfin": case["cfinAt"],
                   "clientEOF": case["closeAt"], "timeout": case["timeoutMs"]},
             "variant": case.get("variant"), "stalls": case["stalls"], "hung": case["hung"]}
